@@ -269,3 +269,55 @@ def _domain_existence_mapping(n):
 
 
 DOMAIN[F + 'SupExistenceMapping.resolve'] = _domain_existence_mapping
+
+
+# ---------------------------------------------------------------- SupDSG.add_mapping (C20: registration and its check)
+CLASSES['SupDSGX']['graph'] = 'Ref[NxGraph]'
+CONTRACTS[F + 'SupDSG.add_mapping'] = dict(
+    properties=['C20'],
+    types={'self': 'Ref[SupDSGX]', 'sup_choice_node': 'Ref', 'src_dsg': 'Ref[SrcDSG]', 'choice_mapping': 'Ref'},
+    calls={
+        # mapping-specific checks (may reject with any error); it does not touch the list of registered mappings
+        'choice_mapping.initialize': dict(params=['sup_dsg', 'node', 'src'], returns=None, modifies=[], assumed=True,
+                                          receiver='choice_mapping', may_raise=['RuntimeError', 'ValueError']),
+    },
+    may_raise=['RuntimeError', 'ValueError'],
+    must_raise={'choice-not-in-this-graph-rejected': ('RuntimeError', 'not (sup_choice_node in self.graph.nodes)')},
+    ensures={
+        'registered-last': ('property', 'len(self._choice_mappings) == len(old(self._choice_mappings)) + 1 and '
+                                        'self._choice_mappings[len(self._choice_mappings) - 1][0] == sup_choice_node and '
+                                        'self._choice_mappings[len(self._choice_mappings) - 1][1] == choice_mapping'),
+        'earlier-registrations-kept-in-order': ('property', 'forall(j, 0, len(old(self._choice_mappings)), self._choice_mappings[j] == old(self._choice_mappings)[j])'),
+        'only-choices-of-this-graph-registered': ('property', 'sup_choice_node in self.graph.nodes'),
+    },
+    modifies=['self._choice_mappings'],
+    modifies_on_raise=[],        # a rejected registration leaves the list of mappings as it was
+)
+
+
+def _domain_add_mapping(n):
+    import random, os
+    from adsg_core.graph.sup.dsg import SupDSG, SupSelChoiceOptionMapping
+    from adsg_core.graph.adsg_basic import BasicDSG
+    from adsg_core.graph.adsg_nodes import NamedNode, SelectionChoiceNode
+    rng = random.Random(9500 + int(os.environ.get('VERIF_SEED', '0') or 0))
+    for _ in range(n):
+        r, o1, o2 = NamedNode('R'), NamedNode('O1'), NamedNode('O2')
+        src = BasicDSG()
+        src_choice = src.add_selection_choice('C', r, [o1, o2])
+        src = src.set_start_nodes({r})
+        sup = SupDSG()
+        sr, s1, s2 = NamedNode('SR'), NamedNode('S1'), NamedNode('S2')
+        sup_choice = sup.add_selection_choice('SC', sr, [s1, s2])
+        foreign = SelectionChoiceNode('foreign')
+        node = sup_choice if rng.random() < 0.7 else foreign
+        complete = rng.random() < 0.7
+        mapping = SupSelChoiceOptionMapping(src_choice, {o1: s1, o2: s2} if complete else {o1: s1})
+        for _k in range(rng.randint(0, 2)):     # earlier registrations
+            sup._choice_mappings.append((sup_choice, SupSelChoiceOptionMapping(src_choice, {o1: s1, o2: s2})))
+        env = {'self': sup, 'sup_choice_node': node, 'src_dsg': src, 'choice_mapping': mapping}
+        yield (env, (lambda sup=sup, node=node, src=src, mapping=mapping: sup.add_mapping(node, src, mapping)), {},
+               f'add_mapping(node {"of this graph" if node is sup_choice else "foreign"}, {"complete" if complete else "incomplete"} mapping), {len(sup._choice_mappings)} registered before')
+
+
+DOMAIN[F + 'SupDSG.add_mapping'] = _domain_add_mapping
